@@ -71,6 +71,7 @@ func main() {
 		us := c.accepted("evolution", "evomix", "empty", "recursive", "maps", "lists", "scalars", "byvalue", "ids", "random", "nocopy")
 		c.malformed(us, (n+2)/3)
 		c.allocBound(c.accepted("lists", "maps")[:4])
+		c.ampProbe()
 	case "C06":
 		c.walkAll = true
 		c.roundTrip(c.accepted("lists", "maps", "scalars", "byvalue", "recursive", "nocopy", "ptrbinary", "random", "defaults"), n)
